@@ -22,28 +22,29 @@ From SK Require Import Model.Base Model.Skel Model.Stm Model.SequenceSk
 Import ListNotations.
 Open Scope Z_scope.
 
-(* ---- T1: calls and if / loop nesting of the trees extracted from
-   result.py are the ones Model/Result.v is written against:
+(* ---- T1: the trees extracted from result.py have the SAME SET OF PATHS
+   (sequences of calls / returns / raises along every way through the ifs;
+   early return vs else, negated tests, merged ifs do not matter) as the
+   ones Model/Result.v is written against:
    store_result: groups() then one _save_part per group, or group(0);
    _save_part: (value and field_info) -> index_to_name, ensure_type; then
    ONE results_store.add; then the entry appended;
    _get_store_id: one pass over the parts, name test or index test, first
    part whose store id is not None; get: _get_store_id then the store *)
 Theorem C05_store_result_shape :
-  calls_only_list tk_store_result = expected_store_result.
+  same_paths (calls_only_list tk_store_result) expected_store_result = true.
 Proof. vm_compute. reflexivity. Qed.
 
 Theorem C05_save_part_shape :
-  collapse_list (calls_only_list tk_save_part)
-  = collapse_list expected_save_part.
+  same_paths (calls_only_list tk_save_part) expected_save_part = true.
 Proof. vm_compute. reflexivity. Qed.
 
 Theorem C05_get_store_id_shape :
-  calls_only_list tk_get_store_id = expected_get_store_id.
+  same_paths (calls_only_list tk_get_store_id) expected_get_store_id = true.
 Proof. vm_compute. reflexivity. Qed.
 
 Theorem C05_result_get_shape :
-  calls_only_list tk_result_get = expected_result_get.
+  same_paths (calls_only_list tk_result_get) expected_result_get = true.
 Proof. vm_compute. reflexivity. Qed.
 
 (* ---- T1, the rest of result.py ---------------------------------------- *)
@@ -90,8 +91,8 @@ Proof. vm_compute. reflexivity. Qed.
 (* __getattr__ (Model.Result.getattr): declared field names -> get(name),
    anything else AttributeError *)
 Theorem C05_getattr_tree :
-  collapse_list (calls_only_list tk_minimal_getattr)
-  = collapse_list (calls_only_list expected_minimal_getattr).
+  same_paths (calls_only_list tk_minimal_getattr)
+             (calls_only_list expected_minimal_getattr) = true.
 Proof. vm_compute. reflexivity. Qed.
 
 (* tag / sequence_id (Model.Result.tag_of / seq_of): the metadata slot, one
